@@ -169,6 +169,40 @@ def do_op(pgpy, op, actor, priv, pub, other, enforce, user=None, address=None):
     return None, None, 'unknown op'
 
 
+def planted_flag_events(ctx):
+    """capabilities are what the most recent self-signature GRANTS, i.e. what it signs: keys from the independent encoder whose binding
+    signature has no key-flags subpacket in its hashed area and one planted in the unhashed area (not covered by the signature) must behave
+    like the same key without the planted subpacket."""
+    pgpy = import_pgpy()
+    from .. import build, enc
+    other = K.new_key('ed25519', name='Other Party', email='other@x.org')
+    ev = []
+    for label, mk_sub, planted, op, form, hashed in (('encrypt', lambda c: enc.Recipient('cv25519', created=c), 0x0C, 'encrypt', 'public', None),
+                                                      ('sign', lambda c: build.ForeignKey('ed25519', created=c), 0x02, 'sign', 'private-unprotected', None),
+                                                      # a two-octet flags field whose FIRST octet grants nothing: bits of the second octet are other flags
+                                                      ('encrypt-2nd-octet', lambda c: enc.Recipient('cv25519', created=c), None, 'encrypt', 'public', b'\x00\x04'),
+                                                      ('encrypt-2nd-octet-0c', lambda c: enc.Recipient('cv25519', created=c), None, 'encrypt', 'public', b'\x00\x0c')):
+        fk = build.ForeignKey('ed25519')
+        sk = mk_sub(fk.created + 1)
+        sblob = build.transferable_key(fk, [b'Planted <planted@example.org>'], subkeys=[(sk, hashed, planted)], secret=True, flags=0x01)
+        with warnings.catch_warnings():
+            warnings.simplefilter('ignore')
+            try:
+                sec = pgpy.PGPKey.from_blob(sblob)[0]
+                pub = pgpy.PGPKey.from_blob(bytes(sec.pubkey))[0]
+            except Exception as ex:
+                ctx.note('planted-flags key not loadable: %s' % repr(ex)[:100])
+                continue
+            actor = pub if form == 'public' else sec
+            out, verified, info = do_op(pgpy, op, actor, sec, pub, other, True)
+        if out is None:
+            continue
+        core = {'pflags': ['C'], 'subs': [[[]]], 'op': op, 'form': form, 'enforce': True, 'hasid': True}
+        ev.append({'sc': core, 'out': out, 'verified': bool(verified), 'predicted': -1, 'info': ('key flags %02x planted in the unhashed area: %s' % (planted, info)) if planted is not None else ('two-octet key flags %s: %s' % (hashed.hex(), info)), 'identity': None,
+                   'planted': True})
+    return ev
+
+
 def run_scenarios(ctx, scen):
     pgpy = import_pgpy()
     pool = Pool(not ctx.quick)
@@ -280,8 +314,9 @@ def run(ctx):
                 keep.append(s)
         scen = keep
     ev, skipped = run_scenarios(ctx, scen)
+    ev += planted_flag_events(ctx)
     for e in ev:
-        ctx.case(repr(e['sc']))
+        ctx.case(repr(e['sc']) + str(e.get('info', ''))[:0] + ('planted' if e.get('planted') else ''))
     for j in (0, len(ev) // 3, 2 * len(ev) // 3, len(ev) - 1):
         ctx.sample(ev[j])
     drift = sum(1 for e in ev if e['out'] != e['predicted'])
